@@ -78,6 +78,12 @@ def plans(seed, q):
         # header/footer calls on a document that went through a package with Word-style part names
         ("foreign", ["AddHeader", "AddFooterWithPageNumber", "AddFormattedHeader", "Reopen", "ToBytes"],
          small(seed, KindsC={"first", "default"}, TextC={"plain"}, ViaC={"word"}, FmtC={FMTS[seed % 2]}), 3 if q else 4),
+        # ... every constructor of one sort (the three footer / the three header calls) after such a package: the part a kind
+        # is written to must be the one its reference points to, whichever of the entry points is used
+        ("foreignf", ["AddFooter", "AddFooterWithPageNumber", "AddFormattedFooter", "Reopen"],
+         small(seed, KindsC={"first", "default"}, TextC={"plain"}, ViaC={"word"}, FmtC={FMTS[seed % 2]}), 3),
+        ("foreignh", ["AddHeader", "AddHeaderWithPageNumber", "AddFormattedHeader", "Reopen"],
+         small(seed, KindsC={"even", "default"}, TextC={"plain"}, ViaC={"word"}, FmtC={FMTS[seed % 2]}), 3),
     ]
     if not q:
         P += [
